@@ -148,6 +148,8 @@ void pbt_run(const Case& cs, Ctx& ctx) {
     const std::string& nm = op.name;
     const std::string& d = op.data;
     String& S = *s[i];
+    // keep the case within its memory budget: no further growing operations on a string that is already long
+    if (m[i].size() > 100000 && (nm == "replace" || nm == "join" || nm == "printf" || nm == "appendp" || nm == "prependp" || nm == "appendc")) { ctx.count("skipped_big"); continue; }
 
     if (nm == "lit") { delete s[i]; s[i] = mkLit((int)a3); m[i].assign(LIT[a3 % NLIT], LITN[a3 % NLIT] - 1); state[i] = 0; group[i] = 0; }
     else if (nm == "buf") { int off, len; window(a3, a2, (a3 & 1) != 0, off, len); int p = (int)(a3 % NPOOL); delete s[i]; s[i] = new String((const char*)pool[p] + GUARD + off, (usize)len); m[i].assign((const char*)pool[p] + GUARD + off, (size_t)len); fresh(i); }
@@ -170,6 +172,8 @@ void pbt_run(const Case& cs, Ctx& ctx) {
       state[i] = ptr[len] ? 3 : 2; group[i] = 0; win[i] = Win{p, off, len};
       ctx.label(state[i] == 3 ? "attach_unterminated" : "attach_terminated");
     }
+    else if ((nm == "append" || nm == "pluseq" || nm == "prepend") && m[i].size() + m[j].size() > 60000) ctx.count("skipped_big");   // repeated concatenation doubles the lengths
+    else if (nm == "plus" && m[j].size() + m[k3].size() > 60000) ctx.count("skipped_big");
     else if (nm == "append" || nm == "pluseq") {
       if (i == j) ctx.label("self_argument");
       std::string add = m[j]; mutating(i);
